@@ -725,3 +725,11 @@ Qed.
 End Inj.
 
 End Th2.
+
+(* per-leaf keys of the *_pytree functions (translated): leaf l uses split index l of the tree key,
+   the same one in the rotation and in the inverse; different leaves use different keys *)
+Lemma leaf_keys_shared (k : list nat) (l : nat) :
+  rot_pytree_leaf_key k l = inv_pytree_leaf_key k l /\ rot_pytree_leaf_key k l = (k ++ [l])%list.
+Proof. split; reflexivity. Qed.
+Lemma leaf_keys_distinct (k : list nat) (l l' : nat) : rot_pytree_leaf_key k l = rot_pytree_leaf_key k l' -> l = l'.
+Proof. unfold rot_pytree_leaf_key. intros H. apply app_inv_head in H. injection H as ->. reflexivity. Qed.
